@@ -632,6 +632,8 @@ def _features(P, turns, ti):
 
 
 def run_case(case):
+    if case.get("fam") == "errretry":
+        return run_errretry(case)
     if not _L:
         setup_worker()
     P = gen_program(random.Random("p%d" % case["pseed"]), case["depth"])
@@ -788,6 +790,124 @@ def run_case(case):
     return fin("held", nontrivial=bool((shape["loops"] or shape["nested_if"]) and multi_turn_checked))
 
 
+
+# ----------------------------------------------------------------------------- "the decision is a function of the history alone",
+# through the RUNTIME OBJECT and across a failed call: a call whose decision computation raises (a condition over a
+# variable nobody set) must not influence the decisions of later calls on the same RuntimeV1_0 instance.
+def _errretry_program(rng):
+    pre = []
+    kinds = rng.sample(["selfset", "sub", "plainset", "exec"], rng.randint(0, 3))
+    for k in kinds:
+        if k == "selfset":
+            pre.append("  $attempts = $attempts + 1")
+        elif k == "sub":
+            pre.append("  do sub a")
+        elif k == "plainset":
+            pre.append("  $mark = %d" % rng.randint(1, 9))
+        else:
+            pre.append("  $r = execute act a")
+    thr = rng.choice([10, 100])
+    tail = rng.choice(["", "  user i three\n  bot b three\n", "  $attempts = $attempts + 10\n  bot b tail\n"])
+    src = (
+        "define flow f main\n  user i one\n  bot b one\n  user i two\n" + "".join(l + "\n" for l in pre)
+        + "  if $points > %d\n    bot b hi\n  else\n    bot b lo\n" % thr + tail
+        + "\ndefine subflow sub a\n  $s = $s + 1\n  if $s > 1\n    bot b sub twice\n  else\n    bot b sub once\n"
+    )
+    return src, kinds, thr
+
+
+def _play_rt(rt, script, hist=None, evmap=None):
+    """Plays `script` (("ctx", dict) | ("user", intent, key)) against rt._compute_next_steps, answering actions.
+    Event objects of script items are kept in `evmap` so that a later script can reuse the very same objects.
+    Returns (per-call normalised decisions, raised text or None, hist)."""
+    import asyncio
+
+    ned, steps = _L["ned"], _L["steps"]
+    hist = [] if hist is None else hist
+    evmap = {} if evmap is None else evmap
+    out = []
+    for item in script:
+        if item[0] == "ctx":
+            ev = evmap.setdefault(item[2], ned("ContextUpdate", data=dict(item[1])))
+            hist.append(ev)
+            continue
+        ev = evmap.setdefault(item[2], ned("UserIntent", intent=item[1]))
+        hist.append(ev)
+        for _ in range(12):
+            steps.start(CALL_BUDGET)
+            try:
+                res = asyncio.run(rt._compute_next_steps(hist, []))
+            except steps.StepBudgetExceeded as e:
+                return out, "NONTERM " + str(e), hist
+            except Exception as e:
+                return out, "%s: %s" % (type(e).__name__, str(e)[:120]), hist
+            finally:
+                steps.stop()
+            if not res:
+                break
+            out.append(_norm(res)[1])
+            for s_ in res:
+                hist.append(s_)
+                if s_["type"] == "StartInternalSystemAction":
+                    hist.append(ned("ContextUpdate", data={s_["action_result_key"]: 7}) if s_.get("action_result_key") else ned("ContextUpdate", data={}))
+                    hist.append(ned("InternalSystemActionFinished", action_uid=s_["action_uid"], action_name=s_["action_name"], action_params=s_["action_params"],
+                                    action_result_key=s_.get("action_result_key"), status="success", is_success=True, failure_reason="success", return_value=7, events=[], is_system_action=False))
+    return out, None, hist
+
+
+def run_errretry(case):
+    if not _L:
+        setup_worker()
+    rng = random.Random("e%d" % case["pseed"])
+    src, kinds, thr = _errretry_program(rng)
+    pts = rng.choice([thr + 50, thr - 5])
+    key = hashlib.sha1((src + repr(pts)).encode()).hexdigest()
+    base = {"key": key, "nontrivial": bool(kinds), "sample": {"program": src, "points": pts}, "fam": "errretry"}
+    obs = {"errretry_cases": 1, "failed_calls_observed": 0, "retry_decisions_compared": 0}
+
+    def mk():
+        cfg = _L["RailsConfig"].from_content(src, "models: []\n")
+        return _L["RT"](cfg)
+
+    try:
+        used = mk()
+    except Exception as e:
+        return dict(base, verdict="inconclusive", reason="loader-reject", detail=str(e)[:300])
+    init = ("ctx", {"attempts": 0, "s": 0}, "c0")
+    evmap = {}
+    # 1. the conversation up to the failing call ($points was never set)
+    t1, raised, hist = _play_rt(used, [init, ("user", "i one", "u1"), ("user", "i two", "u2")], evmap=evmap)
+    if raised is None:
+        return dict(base, verdict="inconclusive", reason="expected:error-not-triggered", observed=obs)
+    obs["failed_calls_observed"] = 1
+    # 2. the caller repairs the context and retries: the history is the old one (the very same event objects) with a
+    #    ContextUpdate inserted in front of the last user intent
+    cut = hist.index(evmap["u2"])
+    retry_hist = hist[:cut]
+    script2 = [("ctx", {"points": pts}, "c1"), ("user", "i two", "u2"), ("user", "i three", "u3")]
+    t_used, raised_u, _ = _play_rt(used, script2, hist=retry_hist, evmap=evmap)
+    # 3. a fresh runtime is given only the repaired history
+    fresh = mk()
+    t_fresh, raised_f, _ = _play_rt(fresh, [init, ("user", "i one", "u1")] + script2)
+    # 4. and the used runtime once more, with new event objects
+    t_again, raised_a, _ = _play_rt(used, [init, ("user", "i one", "u1")] + script2)
+    obs["retry_decisions_compared"] = len(t_fresh)
+    exp = t_fresh
+    # the fresh run also replays the first turn (`bot b one`), which the used runtime decided in step 1
+    got_used = t1[:1] + t_used
+    problems = []
+    if raised_f is not None:
+        return dict(base, verdict="inconclusive", reason="fresh-run-raised", detail=raised_f, observed=obs)
+    if raised_u is not None or got_used != exp:
+        problems.append({"what": "retry on the used runtime differs from the same history on a fresh runtime", "used": got_used, "fresh": exp, "raised": raised_u})
+    if raised_a is not None or t_again != exp:
+        problems.append({"what": "same history replayed on the used runtime differs from a fresh runtime", "used": t_again, "fresh": exp, "raised": raised_a})
+    if problems:
+        return dict(base, verdict="violated", mismatch_kind="history-dependent", observed=obs, features={"after_failed_call": True},
+                    witness={"program": src, "points_supplied_on_retry": pts, "failed_call": raised, "problems": problems})
+    return dict(base, verdict="held", observed=obs)
+
+
 def classify(r):
     kind = r.get("mismatch_kind", "mismatch")
     f = r.get("features") or {}
@@ -813,3 +933,6 @@ def cases(tier, seed):
             "k": K_HIST,
             "full": i % 8 == 0,
         }
+    m = 300 if tier == "quick" else 3000
+    for i in range(m):
+        yield {"id": n + i + 1, "fam": "errretry", "pseed": seed * 10000000 + i}
